@@ -349,7 +349,7 @@ Lemma step_unfold s e fresh bserial :
   step s e fresh bserial =
   match step_handler s e fresh bserial with
   | Done m | Fail m =>
-      match settle (fuel_for (ms m)) m with
+      match settle (fuel_for m) m with
       | Done m' | Fail m' => Done (ms m', mo m')
       | Panic site => Panic site
       end
@@ -359,11 +359,11 @@ Proof. reflexivity. Qed.
 
 Lemma step_Done s e fresh bserial s' o : step s e fresh bserial = Done (s', o) ->
   exists m m', step_handler s e fresh bserial = Done m /\
-    (settle (fuel_for (ms m)) m = Done m' \/ settle (fuel_for (ms m)) m = Fail m') /\
+    (settle (fuel_for m) m = Done m' \/ settle (fuel_for m) m = Fail m') /\
     s' = ms m' /\ o = mo m'.
 Proof.
   rewrite step_unfold. destruct (step_handler s e fresh bserial) as [m|m|] eqn:E; try discriminate.
-  - destruct (settle (fuel_for (ms m)) m) as [m'|m'|] eqn:E'; try discriminate;
+  - destruct (settle (fuel_for m) m) as [m'|m'|] eqn:E'; try discriminate;
       intros [= <- <-]; exists m, m'; auto.
   - exfalso. destruct e; cbn in E; try discriminate.
     + destruct (conns s !! c); discriminate.
@@ -375,7 +375,7 @@ Lemma step_outputs s e fresh bserial s' o : step s e fresh bserial = Done (s', o
   exists m l, step_handler s e fresh bserial = Done m /\ o = mo m ++ l /\ Forall K_settle l.
 Proof.
   intros H. apply step_Done in H as (m & m' & Hh & Hs & -> & ->). exists m.
-  pose proof (settle_ext (fuel_for (ms m)) m) as He.
+  pose proof (settle_ext (fuel_for m) m) as He.
   destruct Hs as [Hs|Hs]; rewrite Hs in He; destruct He as (l & E & F); exists l; auto.
 Qed.
 
@@ -626,7 +626,7 @@ Proof.
   intros Hstep Hh Hq. apply step_Done in Hstep as (m1 & m' & Hh' & Hs & -> & _).
   rewrite Hh in Hh'. injection Hh' as <-.
   destruct Hs as [Hs|Hs]; [|exfalso; exact (settle_never_fails _ _ _ Hs)].
-  pose proof (settle_qg c (fuel_for (ms m)) m (or_introl (ex_intro _ sd Hq))) as Hp. rewrite Hs in Hp.
+  pose proof (settle_qg c (fuel_for m) m (or_introl (ex_intro _ sd Hq))) as Hp. rewrite Hs in Hp.
   apply settle_done_idle, settle_one_None_queue in Hs. destruct Hp as [[sd0 Hp]|Hp]; [|exact Hp].
   rewrite Hs in Hp. apply elem_of_nil in Hp. contradiction.
 Qed.
